@@ -81,6 +81,13 @@ def state_digest(d):
         out['pool_max_fly_id'] = int(fp._max_fly_id)
     if hasattr(d, '_trial_population'):
         out['cma_queue'] = int(d._trial_population.qsize())
+        rows = []
+        for item in list(d._trial_population.queue):      # queue order is observable: it is the row order of the next CMA-ES update
+            try:
+                rows.append(np.round(np.concatenate([np.asarray(x, dtype=float).ravel() for x in (item if isinstance(item, (tuple, list)) else [item])]), 9).tolist())
+            except Exception:
+                rows.append(str(getattr(item, 'id', item))[:40])
+        out['cma_queue_rows'] = rows
     return out
 
 
